@@ -434,3 +434,87 @@ func genC14(r *Rand, p *Plan, tier string) {
 	p.Tape = r.Tape(1500)
 	p.MaxSteps = 5000
 }
+
+// ---- C09: multiplexed / concurrent sessions never influence one another --------------------
+
+func init() {
+	register("C09", genC09)
+}
+
+func genC09(r *Rand, p *Plan, tier string) {
+	p.Family = "mux"
+	p.Scen.Server = "ref"
+	p.Scen.Format = PickOf(r, "yaml", "json")
+	d := GenDoc(r, DocOpts{Keychain: true})
+	d.Normalize()
+	g := &refGen{r: r, d: d, sid: uint32(r.Intn(1 << 20))}
+	g.names, g.pws = DocUsers(d)
+	p.Scen.Docs = []model.Doc{d}
+	nCli := 1 + r.Intn(4)
+	sameIDs := r.Chance(40) // equal session ids on different connections
+	for ci := 0; ci < nCli; ci++ {
+		scopeIdx := r.Intn(len(d.Secrets))
+		cs := ClientSpec{Addr: ClientAddrFor(r, d, scopeIdx, ci)}
+		adm := RefAdmission(d, &cs)
+		cs.Key = []byte(adm.Key)
+		flags := PickOf(r, uint8(0), 0, 0, 1, 4)
+		if sameIDs {
+			g.sid = 4242
+		}
+		k := 2 + r.Intn(7)
+		var scripts []SessScript
+		for j := 0; j < k; j++ {
+			switch r.Intn(6) {
+			case 0, 1, 2:
+				scripts = append(scripts, g.authenSess(adm.Scope, flags))
+			case 3, 4:
+				scripts = append(scripts, g.authorSess(adm.Scope, flags))
+			default:
+				scripts = append(scripts, g.acctSess(adm.Scope, flags, false))
+			}
+		}
+		cs.Ops = Interleave(r, scripts, r.Chance(50))
+		p.Scen.Clients = append(p.Scen.Clients, cs)
+	}
+	if nCli > 1 && r.Chance(50) {
+		p.Mode = "batch"
+	}
+	if r.Chance(50) {
+		p.Park = append(p.Park, PickOf(r, "log:record", "log:[%v] sessionID is complete", "log:accepting user", "log:failed to validate", "log:detected user", "keychain", "sink", "log:prefix secret provider"))
+	}
+	p.Tape = r.Tape(2500)
+	p.MaxSteps = 6000
+}
+
+// SoloPlans derives, from a multiplexed plan, one plan per (connection, session) in
+// which that session is the only one the server ever sees (fresh server, same
+// configuration, fault-free, nothing parked).
+func SoloPlans(p *Plan) (plans []*Plan, conn []int, sess []uint32) {
+	for ci, c := range p.Scen.Clients {
+		seen := map[uint32]bool{}
+		var order []uint32
+		for _, o := range c.Ops {
+			if o.Kind == "send" && o.Pkt != nil && !seen[o.Pkt.Session] {
+				seen[o.Pkt.Session] = true
+				order = append(order, o.Pkt.Session)
+			}
+		}
+		for _, sid := range order {
+			q := &Plan{V: 1, Property: p.Property, Family: "solo", Seed: p.Seed, Run: p.Run, Mode: "serial", Build: p.Build, MaxSteps: 2000}
+			q.Scen.Server, q.Scen.Format, q.Scen.Docs = p.Scen.Server, p.Scen.Format, p.Scen.Docs
+			cs := ClientSpec{Addr: c.Addr, NonTCP: c.NonTCP, Key: c.Key, SrvKey: c.SrvKey, Handler: c.Handler}
+			n := 0
+			for _, o := range c.Ops {
+				if o.Kind == "send" && o.Pkt != nil && o.Pkt.Session == sid {
+					n++
+					cs.Ops = append(cs.Ops, Op{Kind: "send", Pkt: o.Pkt}, Op{Kind: "await-total", N: n})
+				}
+			}
+			q.Scen.Clients = []ClientSpec{cs}
+			plans = append(plans, q)
+			conn = append(conn, ci+1)
+			sess = append(sess, sid)
+		}
+	}
+	return
+}
